@@ -347,7 +347,8 @@ class Gen:
         if n == 'sor':
             L = ['  u64 far = p; out_t a;']
             for x in a:
-                L.append('  a = %s(p); if (a.far > far) far = a.far; if (a.r != 0) { if (a.r == 1) a.far = far; return a; }' % s.fn(x))
+                # a raise<> reached after earlier alternatives failed: the blamed attempt reached as far as those alternatives did
+                L.append('  a = %s(p); if (a.far > far) far = a.far; if (a.r != 0) { if (a.r == 1 || (a.r == 2 && a.id < 1000)) a.far = far; return a; }' % s.fn(x))
             L.append('  return sp_fail(p, far);')
             return '\n'.join(L)
         if n == 'opt':
